@@ -79,6 +79,10 @@ def call_role(ctx, body, c, depth=0):
         return None
     lc = c.local_callee()
     roles = []
+    if (c.tname or "").startswith(HBT) and c.args:
+        # what a hashbrown table operation returns (a bucket, an iterator, a reference) belongs to the table it was applied to, whatever
+        # table the element handed in once came from
+        return op_role(ctx, body, c.args[0], depth + 1)
     if lc is not None and lc.kind != "Closure":
         rr = ret_role(ctx, lc, depth + 1)
         if rr is not None:
@@ -123,6 +127,22 @@ def path_role(ctx, body, p, depth=0):
         return SIDE[r]
     # B values carry a dynamic colour
     root = p.root
+    # component i of a tuple returned by a griddle function (`let (main, old) = self.into_tables()`): the side of that component
+    if p.elems and p.elems[0][0] == "field" and str(p.elems[0][1]).startswith("tuple") and not (1 <= root <= body.arg_count):
+        d0 = body.unique_def(root)
+        if d0 is not None and d0[1] == "call":
+            lc0 = ctx.call_at(body, d0[0].bb).local_callee()
+            if lc0 is not None and lc0.kind != "Closure":
+                roles = []
+                for dd in lc0.defs().get(0, []):
+                    if lc0.is_cleanup(dd[0].bb):
+                        continue
+                    if dd[1] == "assign" and dd[2]["rv"]["k"] == "aggregate" and dd[2]["rv"].get("agg") == "tuple" and p.elems[0][2] < len(dd[2]["rv"]["ops"]):
+                        roles.append(op_role(ctx, lc0, dd[2]["rv"]["ops"][p.elems[0][2]], depth + 1))
+                    else:
+                        roles.append(MIXED)
+                if roles:
+                    return _join(roles)
     # closure capture that resolves to a parent value
     if body.kind == "Closure" and root == 1:
         b2, p2 = ctx.resolve(body, p)
